@@ -42,6 +42,13 @@ def field_names(c):
             (f if c.get('b_alias') is None else c['b_alias']) if f == 'b' else f for f in T.FIELDS]
 
 
+def ftypes(c):
+    """the field types, keyed by the names the fields have in this case"""
+    ft = T.mk_field_types()
+    ft[field_names(c)[3]] = ft.pop('d')
+    return ft
+
+
 def alias_fmt(c, fmt):
     """the generated format strings call the 4th field 'd': rename it in the column descriptions"""
     alias, b_alias = c.get('d_alias'), c.get('b_alias')
@@ -74,7 +81,7 @@ def build(c, fmt, limits=None):
         # ... or from the column descriptions: the values are attributes called like the fields
         recs, fields = [types.SimpleNamespace(**dict(zip(names, r))) for r in recs], None
     return PPTable(recs, fields=fields, fmt=fmt, limits=limits, header=c['header'], footer=c['footer'],
-                   fields_types=T.mk_field_types(), fields_titles=titles)
+                   fields_types=ftypes(c), fields_titles=titles)
 
 
 def gen_case(rng):
@@ -157,7 +164,7 @@ def judge(ctx, c, case):
                 sib_base = T.render(sib)
                 sib_fmt = str(sib.fmt)
                 sib2 = PPTable(c['sibling'], fields=names, fmt=sib_fmt, header=c['header'], footer=c['footer'],
-                               fields_types=T.mk_field_types(),
+                               fields_types=ftypes(c),
                                fields_titles={n: c['titles'][f] for n, f in zip(names, T.FIELDS)})
                 sib_rebuilt = T.render(sib2)
             except Exception as err:
